@@ -90,6 +90,9 @@ _W += [gen_valid.render({"defs": defs}, "plain") for _n, defs in gen_valid.varia
 # seeded C06-c: fragment names coinciding with names of other namespaces
 _NS = gen_valid.namespace_collision_forms(random.Random(7))
 _W += [gen_valid.render({"defs": defs}, "plain") for _n, _l, defs in _NS]
+# seeded C06-d: repeated spreads of one fragment, one occurrence carrying a directive that matters
+_RS = [f for f in gen_valid.repeated_spread_forms(random.Random(7)) if f[0].split("-")[-1] in ("adjacent", "nested")]
+_W += [gen_valid.render({"defs": defs}, "plain") for _n, _l, _o, defs in _RS]
 # seeded C05-a: a fragment's field node is the first of two merged nodes at two places
 _MERGE = ("{ a: anchor(req: 1, inn: {v: 1}, lnn: [1]) { ...MF self { name } } "
           "b: anchor(req: 1, inn: {v: 1}, lnn: [1]) { ...MF self { count } } } "
